@@ -92,6 +92,28 @@ def check(case):
             if evalhelp.outcome_of(res.value) != ref.OUTCOME[expected]:
                 fail("outcome", f"{text!r} under {assignment} with ContentEvaluationResult based evaluators (states spelled in mixed "
                      f"case in the evaluatable data): {evalhelp.outcome_of(res.value)}, expected {ref.OUTCOME[expected]}")  # fmt: skip
+        # a composition of public functions within one task: store the own data in context-local storage, ask
+        # is_valid_expression (which evaluates all possible content evaluation results through the same setter), then
+        # evaluate - the outcome must still be the one of the own data
+        if not units and len(ref.keys_of(ast, "rc")) <= 3 and len(ref.keys_of(ast, "fc")) <= 2:
+            from ahbicht.content_evaluation import is_valid_expression
+
+            evalhelp.setup_for(ast, assignment, style="cer")
+
+            async def validity_then_evaluation():
+                own = evalhelp._CER.get()  # pylint:disable=protected-access
+                evalhelp._CER.set(own)  # pylint:disable=protected-access
+                verdict = await is_valid_expression("Muss " + text, evalhelp._CER.set)  # pylint:disable=protected-access
+                return verdict, await api.requirement_constraint_evaluation(text)
+
+            res = sut.call(validity_then_evaluation)
+            if not res.ok:
+                fail("evaluation-raises", f"is_valid_expression followed by requirement_constraint_evaluation of {text!r} under {assignment} raised {res!r}")
+            if res.value[0] != (True, None):
+                fail("outcome", f"is_valid_expression('Muss ' + {text!r}) = {res.value[0]!r} for a valid expression")
+            if evalhelp.outcome_of(res.value[1]) != ref.OUTCOME[expected]:
+                fail("outcome", f"{text!r} under {assignment}, evaluated right after is_valid_expression in the same task (context-local "
+                     f"data): {evalhelp.outcome_of(res.value[1])}, expected {ref.OUTCOME[expected]}")  # fmt: skip
         # entry point 2 again, this time given the already parsed tree
         evalhelp.setup_for(ast, assignment)
         res = sut.call(api.requirement_constraint_evaluation, shared_tree_2)
